@@ -8,6 +8,14 @@
 (*   from_table table_to_tree(None, pattern, rows)                                               *)
 (*   round_tree  rows = tree_to_table(t, p), back = table_to_tree(None, p, rows)                 *)
 (*   round_rows  tree = table_to_tree(None, p, rows), rows2 = tree_to_table(tree, p)             *)
+(*   hflatten / hget / hupdate / hto_table   the same calls on operands with ALIASING: the       *)
+(*             operands are objects rt (and ru) of a heap `objs` (Tree.tla, "Trees as DAGs"); the  *)
+(*             result is judged on the unfolded trees, and objs_after (every object of the heap   *)
+(*             encoded again, references by identity) must be objs                                *)
+(*   hhist     a HISTORY on one heap of operand objects that outlive the calls: steps "update" /    *)
+(*             "items" (calls, each with its outcome and the heap encoded again afterwards) and   *)
+(*             "edit" (the caller writes objs[obj][key] = cell between two calls); every call is   *)
+(*             judged against what its operands hold at that moment                                *)
 (* Verdict(o) = "" or the name of the first clause the observation breaks.  The result is      *)
 (* judged before the operands so that a wrong result is never hidden behind a changed operand. *)
 EXTENDS Tree, Batch
@@ -23,7 +31,7 @@ Changed(name, before, after) ==
     ELSE IF IsBranch(after) /\ RootView(after) = RootView(before) THEN name \o "_modified_nested"
     ELSE name \o "_modified_root"
 
-Verdict(o) ==
+TreeVerdict(o) ==
     CASE o.op = "flatten" ->
             LET I == TItems(o.t) IN
             IF ~WellFormed(o.t) THEN "bad_input"
@@ -68,6 +76,52 @@ Verdict(o) ==
             ELSE IF o.exc # "" THEN "round_rows_raised"
             ELSE IF ~IsBagOf(o.rows2, R) THEN "table_inverse_on_rows" ELSE ""
       [] OTHER -> "unknown_op"
+
+\* --- operands with aliasing ---------------------------------------------------------------------
+HeapOps == {"hflatten", "hget", "hupdate", "hto_table"}
+\* every object of the heap is what it was, references (identities) included
+HeapChanged(o, hasU) ==
+    IF o.objs_after = o.objs THEN ""
+    ELSE IF Len(o.objs_after) # Len(o.objs) THEN "bad_input"
+    ELSE IF o.objs_after[o.rt] # o.objs[o.rt] THEN "t_modified_root"
+    ELSE IF hasU /\ o.objs_after[o.ru] # o.objs[o.ru] THEN "u_modified_root"
+    ELSE "operand_object_modified_nested"
+HeapVerdict(o) ==
+    LET hasU == o.op = "hupdate"
+        roots == IF hasU THEN {o.rt, o.ru} ELSE {o.rt}
+    IN
+    IF ~HeapOk(o.objs, roots) THEN "bad_input"
+    ELSE LET T == Unfold(o.objs, o.rt)
+             v == CASE o.op = "hflatten" -> TreeVerdict([op |-> "flatten", t |-> T, items |-> o.items, keys |-> o.keys, values |-> o.values,
+                                                          rebuilt |-> o.rebuilt, after |-> T])
+                    [] o.op = "hget"     -> TreeVerdict([op |-> "get", t |-> T, path |-> o.path, out |-> o.out, after |-> T])
+                    [] o.op = "hupdate"  -> LET U == Unfold(o.objs, o.ru) IN
+                                            TreeVerdict([op |-> "update", t |-> T, u |-> U, ign |-> o.ign, out |-> o.out, t_after |-> T, u_after |-> U])
+                    [] o.op = "hto_table" -> TreeVerdict([op |-> "to_table", t |-> T, pat |-> o.pat, rows |-> o.rows, exc |-> o.exc, after |-> T])
+         IN  IF v # "" THEN v ELSE HeapChanged(o, hasU)
+
+\* --- histories: the heap is the state, edits change it, calls are judged against it as it is now ---
+PutCell(objs, i, k, cell) == [objs EXCEPT ![i] = [x \in DOMAIN objs[i] \cup {k} |-> IF x = k THEN cell ELSE objs[i][x]]]
+EditOk(objs, s) == /\ s.obj \in 1..Len(objs)
+                   /\ IsRefCell(s.cell) => s.cell[2] \in (s.obj + 1)..Len(objs) /\ DOMAIN objs[s.cell[2]] # {}
+RECURSIVE HistVerdict(_, _)
+HistVerdict(objs, steps) ==
+    IF steps = <<>> THEN ""
+    ELSE LET s == Head(steps) IN
+         IF s.kind = "edit"
+         THEN IF EditOk(objs, s) THEN HistVerdict(PutCell(objs, s.obj, s.key, s.cell), Tail(steps)) ELSE "bad_input"
+         ELSE LET v == IF s.kind = "update"
+                       THEN HeapVerdict([op |-> "hupdate", objs |-> objs, rt |-> s.rt, ru |-> s.ru, ign |-> s.ign, out |-> s.out, objs_after |-> s.objs_after])
+                       ELSE IF s.kind = "items"
+                       THEN HeapVerdict([op |-> "hflatten", objs |-> objs, rt |-> s.rt, items |-> s.items, keys |-> s.keys, values |-> s.values,
+                                         rebuilt |-> s.rebuilt, objs_after |-> s.objs_after])
+                       ELSE "unknown_op"
+              IN  IF v = "bad_input" \/ v = "unknown_op" THEN v
+                  ELSE IF v # "" THEN "history_" \o v
+                  ELSE HistVerdict(objs, Tail(steps))
+
+Verdict(o) == IF o.op = "hhist" THEN HistVerdict(o.objs, o.steps)
+              ELSE IF o.op \in HeapOps THEN HeapVerdict(o) ELSE TreeVerdict(o)
 
 Init == BatchInit
 Next == BatchNext(Verdict)
